@@ -43,13 +43,13 @@ def plan(tier):
 
 
 def gen_cases(ctx):
-    for i in range(ctx.share(ctx.scale(600, 40000))):
+    for i in range(ctx.share(ctx.scale(600, 200000))):
         rng = ctx.rng(1, i)
         yield {"kind": "direct_null", "seed": int(rng.integers(1 << 31)), "regime": int(rng.choice([0, 7])),
                "combo": int(rng.integers(6)), "n": int(rng.choice([1, 2, 17, 200])), "tex": str(rng.choice(gen.TEXTURE_KINDS)),
                "vol": str(rng.choice(gen.VOLUME_KINDS)), "Lkind": str(rng.choice(gen.L_KINDS)),
                "scale": float(10.0 ** rng.uniform(-16, 3))}
-    for i in range(ctx.share(ctx.scale(150, 5000))):
+    for i in range(ctx.share(ctx.scale(150, 16000))):
         rng = ctx.rng(2, i)
         sub = ["L0", "null_regime", "M0", "switch_to_null"][i % 4]
         c = drive.random_history_case(rng)
@@ -84,7 +84,7 @@ def gen_cases(ctx):
             for phase in range(0, 3):
                 for fabric in range(0, 7):
                     yield {"kind": "mineral_ordinals", "regime": regime, "phase": phase, "fabric": fabric}
-    for i in range(ctx.share(ctx.scale(60, 2000))):
+    for i in range(ctx.share(ctx.scale(60, 8000))):
         rng = ctx.rng(4, i)
         c = drive.random_history_case(rng)
         c["kind"] = "failpoint"
